@@ -747,3 +747,70 @@ def conv_property(prop, tier, seed):
 
     rep.rerun_witness = rerun
     return rep
+
+
+# =========================================================================== C15
+def ser_property(prop, tier, seed):
+    from . import serprops, rtcases
+
+    root = REPO
+    repo = Repo(root)
+    rep = Report(prop, tier, seed, "other", "./check %s --tier %s" % (prop, tier))
+    rep.trusted = ["str.replace / str.format / str.join / repr(float) / str(int) as assumed builtin contracts (replace = uninterpreted REPL, repr(float) in the "
+                   "regular over-approximation -?d+.d+(e[+-]d+)? | -?d+e[+-]d+; inf/nan outside A-REAL)",
+                   "unescape(escape(s)) = s for the canonical escaping (backslashes, then double quotes) - a fact about Python's unicode_escape, exercised by the bounded round trip",
+                   "the load-back step is C10 (lexeme lemmas proved, PLY engines assumed)"]
+    try:
+        recs, fns = serprops.verify_serialisers(repo)
+        rep.functions += fns
+    except Exception as e:
+        import traceback
+
+        recs = []
+        rep.errors.append("serialisers: %s: %s %s" % (type(e).__name__, e, traceback.format_exc()[-800:]))
+    for r in recs:
+        r = {k: v for k, v in r.items() if k not in ("model_obj", "state")}
+        rep.add_vc(r["name"], r["status"], r.get("function"), r.get("clause") or r.get("kind"), r.get("backend"), r.get("time_s", 0),
+                   detail={"goal": r.get("goal"), "reason": r.get("reason"), "witness": r.get("witness")})
+        if r["status"] == "sat":
+            rep.violations.append({"obligation": r["name"], "function": r.get("function"), "how": "counter-model", "detail": {"goal": r.get("goal"), "witness": r.get("witness")},
+                                   "confirmed": False})
+        elif r["status"] != "unsat":
+            rep.undecided.append({"obligation": r["name"], "reason": r.get("reason") or "unknown"})
+    rep.samples = [{"obligation": r["name"], "verdict": r["status"]} for r in recs[:4]]
+    t0 = time.time()
+    cases = rtcases.cases(tier if not rep.undecided else "thorough", seed)
+    outs = rtcases.run_real(cases, root)
+    distinct, fails = set(), 0
+    for c, o in zip(cases, outs):
+        distinct.add(json.dumps(c, sort_keys=True))
+        bad = rtcases.judge(c, o)
+        if any(b[0] == "harness-error" for b in bad):
+            rep.errors.append("round-trip battery: %s" % (bad[0][1],))
+            continue
+        if bad:
+            fails += 1
+            rep.violations.append({"obligation": "mpilot/program.py::Program.to_string/bounded:roundtrip", "function": TOSKEY, "how": "bounded-concrete", "case": c,
+                                   "real": o, "violated": ["roundtrip"], "violated_detail": bad, "confirmed": True})
+    rep.bounded = {"label": "bounded (never counted as proved)", "evaluations": len(cases), "distinct_nontrivial": len(distinct), "failures": fails,
+                   "wall_s": round(time.time() - t0, 1),
+                   "rule": "programs over a stub command with a parameter of every kind, built through the API (Argument objects, raw values, Command objects) "
+                           "and from source: %d string values (quotes, backslashes, delimiters, non-ASCII, padding, line breaks) as plain, list, metadata and path "
+                           "values, %d numbers incl. exponent forms and subnormals, booleans, references, nested lists; from_source(to_string(P)) must have the same "
+                           "commands, argument names and cleaned values" % (len(rtcases.STRS), len(rtcases.NUMS))}
+    rep.explanation = ("Proved: quote(s) = '\"' + escape(s) + '\"'; serialize_value writes strings quoted and escaped, references bare (by result name for Command objects), "
+                       "integers as str(n), floats as repr with a decimal point added to a bare exponent form; regular-language lemmas: every written number is an INT / FLOAT "
+                       "lexeme and every written string one STRING lexeme of the lexer extracted from the source. Assumed: reading the text back (C10's engines). Bounded: the "
+                       "whole round trip on the real code.")
+
+    def rerun(w):
+        if not w or w.get("kind") != "roundtrip-case":
+            return None
+        o = rtcases.run_real([w["case"]], root)[0]
+        return [b[0] for b in rtcases.judge(w["case"], o)]
+
+    rep.rerun_witness = rerun
+    return rep
+
+
+TOSKEY = "mpilot/program.py::Program.to_string"
